@@ -17,6 +17,7 @@ import (
 	"os"
 	"os/exec"
 	"path/filepath"
+	"regexp"
 	"runtime/debug"
 	"sort"
 	"strings"
@@ -228,11 +229,21 @@ func runC20Case(ctx *Ctx, c SDCase) {
 			ctx.Out.Stat("c20_backup_runs", 1)
 			s.c20RestoreAndCompare(dir, rsync, want, nBackups)
 		case "backup-busy":
+			s.c20EnsureBulk()
+			if s.abort {
+				break
+			}
+			pre := s.c20Snapshot(s.core)
 			s.c20BusyBackup(bm)
 			if s.abort {
 				break
 			}
 			nBackups++
+			// what the busy run left behind restores to a state the source hub passed through during the run
+			s.c20RestorePointInTime(dir, pre, s.c20Snapshot(s.core), nBackups)
+			if s.abort {
+				break
+			}
 			// the quiet run that follows must pick up everything that was acknowledged during the busy run
 			want := s.c20Snapshot(s.core)
 			func() {
@@ -427,9 +438,7 @@ func dirHash(dir string) string {
 	return hex.EncodeToString(h.Sum(nil))
 }
 
-// c20BusyBackup runs one backup while a client keeps writing single-entity batches and the scheduler
-// "fires" three more times. Every write that was acknowledged is applied to the model in order.
-func (s *sdRun) c20BusyBackup(bm *server.BackupManager) {
+func (s *sdRun) c20EnsureBulk() {
 	// make the run long enough to overlap something: a bulk dataset, written once per case
 	if s.core.Dsm.GetDataset("bulk") == nil {
 		if _, err := s.core.Dsm.CreateDataset("bulk", nil); err != nil {
@@ -451,6 +460,11 @@ func (s *sdRun) c20BusyBackup(bm *server.BackupManager) {
 			s.m.Apply("bulk", ents[i:i+500])
 		}
 	}
+}
+
+// c20BusyBackup runs one backup while a client keeps writing single-entity batches and the scheduler
+// "fires" three more times. Every write that was acknowledged is applied to the model in order.
+func (s *sdRun) c20BusyBackup(bm *server.BackupManager) {
 	stop := make(chan struct{})
 	var acked []model.Ent
 	var wg sync.WaitGroup
@@ -490,4 +504,126 @@ func (s *sdRun) c20BusyBackup(bm *server.BackupManager) {
 	}
 	s.ctx.Out.Stat("c20_writes_acknowledged_during_backup_runs", int64(len(acked)))
 	s.ctx.Out.Stat("c20_busy_backup_runs", 1)
+}
+
+var c20BusyID = regexp.MustCompile(`/a/w(\d+)-(\d+)"`)
+
+// c20RestorePointInTime: during the busy run one client appended the new entities w<op>-0, w<op>-1, ... to "da",
+// one acknowledged batch each, and nothing else was written. The state "when the run started" is therefore only
+// known up to the writes that overlapped the run: the restore must be the state before the run plus the first j of
+// those writes, the same j in the listing and in the change feed, and every other answer unchanged.
+func (s *sdRun) c20RestorePointInTime(dir string, pre, post map[string]string, n int) {
+	rdir := filepath.Join(dir, fmt.Sprintf("restore-%d-busy", n))
+	defer os.RemoveAll(rdir)
+	f, err := os.Open(filepath.Join(dir, "backup", "datahub-backup.kv"))
+	if err != nil {
+		s.viol("C20", "backup-file-missing", "native backup run left no backup file", nil, nil)
+		return
+	}
+	_ = os.MkdirAll(rdir, 0o755)
+	db, err := badger.Open(badger.DefaultOptions(rdir).WithLogger(nil).WithMemTableSize(8 << 20).WithValueLogFileSize(32 << 20).WithNumMemtables(2).WithBlockCacheSize(1 << 20).WithIndexCacheSize(1 << 20).WithDetectConflicts(false))
+	if err != nil {
+		f.Close()
+		s.ctx.Out.Inconclusive(s.id, "C20", "open restore db: "+err.Error())
+		return
+	}
+	lerr := db.Load(f, 16)
+	f.Close()
+	cerr := db.Close()
+	if lerr != nil || cerr != nil {
+		s.viol("C20", "backup-unreadable", fmt.Sprintf("badger cannot load the backup file written by a run that overlapped writes: %v %v", lerr, cerr), nil, nil)
+		s.abort = true
+		return
+	}
+	rc, err := hub.TryOpenCore(rdir)
+	if err != nil {
+		s.viol("C20", "restore-open-failed", "the restored store does not open: "+firstLine(err.Error()), nil, err.Error())
+		s.abort = true
+		return
+	}
+	defer rc.Close()
+	var got map[string]string
+	func() {
+		defer func() {
+			if p := recover(); p != nil {
+				s.viol("C20", "restore-torn-during-writes", fmt.Sprintf("backup run %d overlapped acknowledged writes: a read API of the restored hub panics (%v): the restore holds part of a batch", n, p), nil, string(debug.Stack()))
+				s.abort = true
+			}
+		}()
+		got = s.c20Snapshot(rc)
+	}()
+	if got == nil {
+		return
+	}
+	lines := func(v string) []string {
+		var out []string
+		for _, l := range strings.Split(v, "\n") {
+			if l != "" && !strings.HasPrefix(l, "token=") {
+				out = append(out, l)
+			}
+		}
+		return out
+	}
+	// j from the change feed: old lines, then a prefix of the new ones
+	preF, postF, gotF := lines(pre["feed|da"]), lines(post["feed|da"]), lines(got["feed|da"])
+	okPrefix := len(gotF) >= len(preF) && len(gotF) <= len(postF)
+	for i := 0; okPrefix && i < len(gotF); i++ {
+		okPrefix = gotF[i] == postF[i]
+	}
+	if !okPrefix {
+		s.viol("C20", "restore-feed-not-a-point-in-time", fmt.Sprintf("backup run %d overlapped %d acknowledged single-entity batches: the restored change feed of da is not the feed before the run plus a prefix of those batches", n, len(postF)-len(preF)), strings.Join(postF, "\n"), strings.Join(gotF, "\n"))
+		s.abort = true
+		return
+	}
+	j := len(gotF) - len(preF)
+	// the listing holds exactly the entities of those j batches
+	preL := map[string]bool{}
+	for _, l := range lines(pre["list|da"]) {
+		preL[l] = true
+	}
+	seen := map[int]bool{}
+	for _, l := range lines(got["list|da"]) {
+		if preL[l] {
+			delete(preL, l)
+			continue
+		}
+		m := c20BusyID.FindStringSubmatch(l)
+		if m == nil {
+			s.viol("C20", "restore-list-not-a-point-in-time", fmt.Sprintf("backup run %d: the restored listing of da holds a record that is neither from before the run nor written during it", n), nil, l)
+			s.abort = true
+			return
+		}
+		var op, k int
+		fmt.Sscanf(m[1]+" "+m[2], "%d %d", &op, &k)
+		seen[k] = true
+	}
+	bad := len(preL) > 0 || len(seen) != j
+	for k := 0; k < j && !bad; k++ {
+		bad = !seen[k]
+	}
+	if bad {
+		s.viol("C20", "restore-list-not-a-point-in-time", fmt.Sprintf("backup run %d overlapped acknowledged writes: the restored change feed of da holds the first %d of them, the restored listing holds %d of them (missing from before the run: %d)", n, j, len(seen), len(preL)), nil, got["list|da"])
+		s.abort = true
+		return
+	}
+	keys := make([]string, 0, len(pre))
+	for k := range pre {
+		// (the items counter kept in core.Dataset moves with every write)
+		if k != "feed|da" && k != "list|da" && !strings.Contains(k, "core.Dataset") {
+			keys = append(keys, k)
+		}
+	}
+	sort.Strings(keys)
+	for _, k := range keys {
+		if got[k] != pre[k] && got[k] != post[k] {
+			s.viol("C20", "restore-"+strings.SplitN(k, "|", 2)[0]+"-during-writes", fmt.Sprintf("backup run %d overlapped writes that do not touch %s, yet the restored hub answers it differently from the source hub", n, k), pre[k], got[k])
+			s.abort = true
+			return
+		}
+	}
+	s.ctx.Out.Stat("c20_busy_restores_compared", 1)
+	s.ctx.Out.Stat("c20_busy_restore_prefix_lengths_seen", int64(j))
+	if j > 0 && j < len(postF)-len(preF) {
+		s.ctx.Out.Stat("c20_busy_restores_strictly_inside_the_write_sequence", 1)
+	}
 }
